@@ -11,7 +11,7 @@ def run(rep: Report, tier: str, only=None) -> None:
 	for tmpl in range(14):
 		jobs.append(Job('O1-3.program', H, 'program_law', {'template': tmpl, 'full': thorough}, t, 'F',
 			'program template (assignments, if/elif/else, while, for, def with default, class with methods / class method / generic bases, try, with, import/assert/del, enum, closure + yield, destructuring) x two expression slots over 34 expressions'
-			+ (' (all pairs)' if thorough else ' (slot 2 tied to slot 1)') + ' x node kind returning None (9) x position of a nested exec (4: none, 1st, 3rd, 7th handler call; the nested run is repeated failing and caught)', ('nested_exec', 'nested_failure_caught', 'none_result')))
+			+ (' (all pairs)' if thorough else ' (slot 2 tied to slot 1)') + ' x node kind returning None (9) x position of a nested exec (quick 4: none, 1st, 3rd, 7th handler call; thorough 2: none, 3rd; the nested run is repeated failing and caught)', ('nested_exec', 'nested_failure_caught', 'none_result')))
 	if only:
 		jobs = [j for j in jobs if j.obligation in only or j.obligation.split('.')[0] in only]
 	rep.functions = ['Procedure.exec/__exec_impl/__process/__action/__run_action/__emit/__make_event/__is_prop_list_by/__stack_pop', 'Node.procedural/prop_keys/__prop_expand/__prop_of_nodes/_under_expand/can_expand',
